@@ -357,6 +357,23 @@ def mon_c01(ix: Index):
                             and "BaseException" in (e.get("mro") or []) and "Exception" in (e.get("mro") or []):
                         out.append(V("C01", "C01/succeeded-op-raised/%s/%s" % (e.get("opkind"), e["cls"]),
                                      "%s was SUCCEEDED at invocation start but raised %s: %s" % (e["path"], e["cls"], str(e.get("msg"))[:80]), e["i"]))
+    # O3: an operation that was SUCCEEDED at invocation start hands back the value it delivered when it completed (map/parallel results
+    # are left to C09/C16, which know the accepted differences of rebuilt batch results)
+    first_val: dict[tuple, tuple] = {}
+    for inv, evs in ix.by_inv.items():
+        start = next((x for x in evs if x["kind"] == "inv_start"), None)
+        succ = {oid for oid, st in (start["statuses"].items() if start else []) if st == "SUCCEEDED"}
+        for e in evs:
+            if e["kind"] != "ret" or e.get("phase") == "create" or e.get("opkind") in ("par", "map"):
+                continue
+            key = (e["path"], e.get("phase"))
+            if key not in first_val:
+                first_val[key] = (e.get("val"), e["inv"])
+            elif e.get("oid") in succ and first_val[key][0] != e.get("val"):
+                n_checked += 1
+                out.append(V("C01", "C01/recorded-value-not-returned/%s" % e.get("opkind"),
+                             "%s was SUCCEEDED at the start of invocation %d but returned %s; when it completed (invocation %d) it delivered %s"
+                             % (e["path"], inv, str(e.get("val"))[:60], first_val[key][1], str(first_val[key][0])[:60]), e["i"]))
     ix.r.setdefault("stats", {})["c01_entries_checked"] = n_checked
     return out
 
